@@ -93,11 +93,23 @@ theorem go_geocentric_from_wgs84_eq_js (dm : Model.Datum ℝ) (dj : Js.Datum ℝ
   simp only [h.ty, dpar_same h, Js.num, Option.getD_some]
   split_ifs <;> rfl
 
-/-- `compare_datums` -/
-theorem go_compare_datums_eq_js (d1 d2 : Model.Datum ℝ) (j1 j2 : Js.Datum ℝ) (h1 : DatumSame d1 j1) (h2 : DatumSame d2 j2) :
+/-- `compare_datums` (Go side REGENERATED: `Gen.Go.datum_compare_datums`). For grid-shift datums the
+port compares the `nadGrids` strings, proj4js two `undefined`s: the same answer when the strings agree -/
+theorem go_compare_datums_eq_js (d1 d2 : Model.Datum ℝ) (j1 j2 : Js.Datum ℝ) (h1 : DatumSame d1 j1) (h2 : DatumSame d2 j2)
+    (hg : (d1.datum_type == 3 || d2.datum_type == 3) = true → d1.nadGrids = d2.nadGrids) :
     Js.compare_datums j1 j2 = Model.compare_datums d1 d2 := by
-  unfold Js.compare_datums Model.compare_datums Js.PJD_3PARAM Js.PJD_7PARAM Model.pjd3Param Model.pjd7Param
+  unfold Js.compare_datums Model.compare_datums Gen.Go.datum_compare_datums Js.PJD_3PARAM Js.PJD_7PARAM
   simp only [h1.ty, h2.ty, h1.a, h2.a, h1.es, h2.es, dpar_same h1, dpar_same h2]
+  rnum
+  simp only [show (0.000000000050 : ℝ) = 0.00000000005 by norm_num]
+  by_cases hc : (d1.datum_type == 3 || d2.datum_type == 3) = true
+  · simp only [hc, hg hc, if_true, ite_true, beq_self_eq_true]
+  · simp only [hc, Bool.false_eq_true, if_false, ite_false]
+
+/-- `checkDatumParams` (REGENERATED) = `checkParams` of datum_transform.js -/
+theorem go_checkDatumParams_eq_js (t : Nat) : Js.checkParams t = Model.checkDatumParams (α := ℝ) t := by
+  unfold Js.checkParams Model.checkDatumParams Gen.Go.datum_checkDatumParams Js.PJD_3PARAM Js.PJD_7PARAM
+  rfl
 
 /-- ok-form of `go_geodetic_to_geocentric_eq_js`: the proj4js result has a defined `z` and the port
 returns the same three numbers; a proj4js failure (latitude out of range) is a failure of the port -/
@@ -235,10 +247,10 @@ theorem go_datum_eq_js (d1 d2 : Model.Datum ℝ) (j1 j2 : Js.Datum ℝ) (h1 : Da
   have e2 : (d2.datum_type == 3) = false := by simpa using hg2
   unfold Js.datum_transform at hp
   unfold Model.datumTransform
-  rw [go_compare_datums_eq_js d1 d2 j1 j2 h1 h2] at hp
+  rw [go_compare_datums_eq_js d1 d2 j1 j2 h1 h2 (fun h => by simp [e1, e2] at h)] at hp
   simp only [h1.ty, h2.ty, h1.a, h2.a, h1.es, h2.es, Js.PJD_NODATUM, Js.PJD_GRIDSHIFT, Js.checkParams, Js.PJD_3PARAM,
     Js.PJD_7PARAM] at hp
-  simp only [Model.pjdNoDatum, Model.pjdGridShift, Model.checkDatumParams, Model.pjd3Param, Model.pjd7Param]
+  simp only [Model.pjdNoDatum, Model.pjdGridShift, Model.checkDatumParams, Gen.Go.datum_checkDatumParams, Model.pjd3Param, Model.pjd7Param]
   simp only [e1, e2, Bool.false_eq_true, if_false, ite_false, Bool.or_self] at hp ⊢
   by_cases hc : Model.compare_datums d1 d2 = true
   · simp only [hc, if_true, ite_true] at hp ⊢
